@@ -8,6 +8,7 @@ import (
 	"os"
 	"path/filepath"
 	"strconv"
+	"strings"
 	"sync/atomic"
 	"testing"
 	"time"
@@ -266,7 +267,7 @@ func TestProp_CLIVerdict(t *testing.T) {
 			Ignore:      rapid.Bool().Draw(rt, "ignore"),
 			Drops:       rapid.IntRange(0, 3).Draw(rt, "drops") == 0,
 		}
-		c.ViaFile = !c.Drops && rapid.IntRange(0, 2).Draw(rt, "viaFile") == 0
+		c.ViaFile = rapid.IntRange(0, 2).Draw(rt, "viaFile") == 0
 		var passed, failed atomic.Uint64
 		planFail := func(id uint64) bool {
 			return (c.FailEvery > 0 && id%uint64(c.FailEvery) == 0) || id <= uint64(c.FailFirst)
@@ -304,7 +305,15 @@ func TestProp_CLIVerdict(t *testing.T) {
 			if c.MaxRate > 0 {
 				yaml += fmt.Sprintf("  max-failures-rate: %d\n", c.MaxRate)
 			}
-			yaml += fmt.Sprintf("stages:\n- duration: 30s\n  mode: users\n  concurrency: %d\n", c.Conc)
+			if c.Drops {
+				// the constant-mode shape with certain drops, as a config file
+				yaml = strings.Replace(yaml, "max-duration: 30s", "max-duration: 200ms", 1)
+				yaml = strings.Replace(yaml, fmt.Sprintf("concurrency: %d", c.Conc), "concurrency: 1", 1)
+				yaml = strings.Replace(yaml, fmt.Sprintf("max-iterations: %d", c.N), "max-iterations: 0", 1)
+				yaml += "stages:\n- duration: 10s\n  mode: constant\n  rate: 5/50ms\n  jitter: 0\n  distribution: none\n"
+			} else {
+				yaml += fmt.Sprintf("stages:\n- duration: 30s\n  mode: users\n  concurrency: %d\n", c.Conc)
+			}
 			path := filepath.Join(cliDir, fmt.Sprintf("cfg-%d.yaml", cliSeq.Add(1)))
 			if err := os.WriteFile(path, []byte(yaml), 0o600); err != nil {
 				rt.Fatalf("VERIF-INFRA: %v", err)
@@ -341,7 +350,11 @@ func TestProp_CLIVerdict(t *testing.T) {
 		}
 		// drops are certain (>=1) but their exact number is timing dependent: the verdict is
 		// decided whenever it does not depend on that number.
-		stats.Case("cli", fmt.Sprintf("%+v", c), true, []string{"constant-with-drops"}, func() any { return c })
+		cd := []string{"constant-with-drops"}
+		if c.ViaFile {
+			cd = append(cd, "via-config-file")
+		}
+		stats.Case("cli", fmt.Sprintf("%+v", c), true, cd, func() any { return c })
 		if !c.Ignore {
 			if err == nil {
 				rt.Fatalf("VERIF-VIOLATION C08(cli): %+v: iterations were certainly dropped, ignore-dropped is off, yet no error was returned", c)
